@@ -15,14 +15,14 @@ import (
 )
 
 type Engine struct {
-	prog   *ssa.Program
-	pkg    *ssa.Package
-	tpkg   *types.Package
-	fset   *token.FileSet
-	cs     *Contracts
-	funcs  map[string]*ssa.Function // key -> function (incl. closures)
-	keyOf  map[*ssa.Function]string
-	roots  []*ssa.Function
+	prog  *ssa.Program
+	pkg   *ssa.Package
+	tpkg  *types.Package
+	fset  *token.FileSet
+	cs    *Contracts
+	funcs map[string]*ssa.Function // key -> function (incl. closures)
+	keyOf map[*ssa.Function]string
+	roots []*ssa.Function
 	// contract-less unexported helpers decided only at their call sites
 	inlineOnly []string
 	// new bare name -> bare name the contracts use, for functions that were renamed
@@ -30,18 +30,18 @@ type Engine struct {
 	renamedNotes []string
 	// package-level slices initialised from a literal of constants and never written afterwards
 	constTables map[string][]*ssa.Const
-	strIDs map[string]int
-	inferred map[string]string // fields of shared structs without a declaration: key -> inferred class
-	strs   []string
-	tyIDs  map[string]int
-	tys    []string
-	repo   string
+	strIDs      map[string]int
+	inferred    map[string]string // fields of shared structs without a declaration: key -> inferred class
+	strs        []string
+	tyIDs       map[string]int
+	tys         []string
+	repo        string
 	// excluded source files (test support, metrics plumbing)
-	excluded map[string]bool
-	mayAcq   map[*ssa.Function]map[string]bool
-	ifaceImpl map[string][]*ssa.Function
-	loadSecs float64
-	catalogue []catEntry
+	excluded          map[string]bool
+	mayAcq            map[*ssa.Function]map[string]bool
+	ifaceImpl         map[string][]*ssa.Function
+	loadSecs          float64
+	catalogue         []catEntry
 	cataloguePatterns []string
 }
 
@@ -230,6 +230,19 @@ func LoadEngine(repo string, contractsPath string) (*Engine, error) {
 					}
 					if mc, ok := (*op).(*ssa.MakeClosure); ok {
 						if f, ok := mc.Fn.(*ssa.Function); ok && f.Parent() == nil {
+							// a method value (x.m): the wrapper's single call is the method itself. Handed straight to
+							// sync.Once.Do (or started with go/defer) it runs where it is written, like a direct call;
+							// anywhere else the method is used as a value
+							if tgt := boundMethodTarget(f); tgt != nil {
+								if onlyRunsInPlace(mc) {
+									if tgt != fn {
+										called[tgt] = true
+									}
+								} else {
+									valued[tgt] = true
+								}
+								continue
+							}
 							valued[f] = true
 						}
 					}
@@ -427,6 +440,52 @@ func (e *Engine) fieldDecl(root string, path []string) *FieldDecl {
 // sharedStructs are the struct types whose every field must be declared.
 var sharedStructs = []string{"kvElection", "disconnectHandler", "natsConnectionMonitor", "CircuitBreaker", "natsWatcherAdapter", "MockWatcherAdapter"}
 
+// boundMethodTarget: for the synthetic wrapper of a method value, the method it calls.
+func boundMethodTarget(f *ssa.Function) *ssa.Function {
+	if !strings.Contains(f.Name(), "$bound") {
+		return nil
+	}
+	for _, b := range f.Blocks {
+		for _, in := range b.Instrs {
+			if c, ok := in.(*ssa.Call); ok {
+				if sc := c.Call.StaticCallee(); sc != nil {
+					return sc
+				}
+			}
+		}
+	}
+	return nil
+}
+
+// onlyRunsInPlace: every use of the closure value is as the function argument of sync.Once.Do or as the function of a
+// go / defer statement.
+func onlyRunsInPlace(mc *ssa.MakeClosure) bool {
+	refs := mc.Referrers()
+	if refs == nil || len(*refs) == 0 {
+		return false
+	}
+	for _, r := range *refs {
+		switch x := r.(type) {
+		case *ssa.DebugRef:
+		case *ssa.Call:
+			sc := x.Call.StaticCallee()
+			if sc == nil || sc.String() != "(*sync.Once).Do" {
+				return false
+			}
+		case *ssa.Go:
+			if x.Call.Value != ssa.Value(mc) {
+				return false
+			}
+		case *ssa.Defer:
+			if x.Call.Value != ssa.Value(mc) {
+				return false
+			}
+		default:
+			return false
+		}
+	}
+	return true
+}
 
 // inferFieldClasses gives every field of a shared struct that the contract file does not declare the class the code
 // itself shows (so that a new field is decided by its accesses instead of being reported as undeclared): sync and
@@ -656,7 +715,6 @@ func (e *Engine) findConstTables() {
 		fmt.Fprintf(os.Stderr, "const tables: %d candidates, bad=%v, found=%d\n", len(cand), len(bad), len(e.constTables))
 	}
 }
-
 
 func staticallyCalls(e *Engine, fn *ssa.Function, bare string) bool {
 	seen := map[*ssa.Function]bool{}
